@@ -67,6 +67,28 @@ class Report:
         """signature: stable dict identifying the failing input/history."""
         self.violations.append((signature, what, replay))
 
+    def guard(self, fn, *args, what='case', detail=None, **kw):
+        """Evaluate one case of a table / one scenario.  The case functions are
+        deterministic and call only the public API on inputs of the property's
+        domain, and none of them raises on a tree where the property holds; an
+        exception (the library raising, or returning something so far from the
+        expected value that comparing it fails) is a violation for that case."""
+        import traceback
+        try:
+            return fn(*args, **kw)
+        except Exception as e:
+            if type(e).__name__ == 'MachineryFailure':
+                raise
+            tb = traceback.extract_tb(e.__traceback__)
+            where = '%s:%s' % (os.path.basename(tb[-1].filename), tb[-1].name) if tb else '?'
+            self.violation({'kind': 'exception', 'what': what, 'type': type(e).__name__,
+                            'where': where},
+                           '%s %s: evaluating it raised %s: %s (in %s)'
+                           % (self.prop, what, type(e).__name__, str(e)[:200], where),
+                           {'detail': detail, 'traceback': ''.join(
+                               traceback.format_exception(type(e), e, e.__traceback__))[-4000:]})
+            return None
+
     # ---- output
     def finish(self, write=True):
         findings, _fixed = load_known()
